@@ -29,6 +29,10 @@ def extract(path=None):
                         a.add(sub.attr)
             if isinstance(node, ast.Call) and isinstance(node.func, ast.Attribute) and isinstance(node.func.value, ast.Name) and node.func.value.id == "self":
                 c.add(node.func.attr)
+        for dec in fn.decorator_list:
+            txt = ast.unparse(dec)
+            if "cache" in txt:  # functools.lru_cache / cache / cached_property keep their value across set_system
+                a.add("@%s:%s" % (txt.split("(")[0], fn.name))
         assigns[fn.name], calls[fn.name] = a, c
 
     def closure(m, seen=None):
